@@ -1,12 +1,13 @@
 WEAVE = [dict(file='include/lockfree_ring_buffer.h', parse='test/test_lockfree_ring_buffer.c', fns=['lockfree_ring_buffer_trypush', 'lockfree_ring_buffer_trypop'])]
 def G(name, harness, fn, p, thorough):
     return dict(name='%s_cap2to%d' % (name, 1 << p), tu='ring.c', harness=harness, mode='H', functions=[fn], defs=['-DPMAX=%d' % p],
-                timeout=900, thorough_only=thorough, bound_note='capacity 2^1..2^%d (symbolic within that range); all 2^62 index values, wrap of index & mask included' % p)
+                timeout=900, thorough_only=thorough, bounded=True, bound_note='capacity 2^1..2^%d (symbolic within that range); all 2^62 index values, wrap of index & mask included' % p)
 GROUPS = [
     G('trypush', 'h_trypush', 'lockfree_ring_buffer_trypush', 4, False),
     G('trypop', 'h_trypop', 'lockfree_ring_buffer_trypop', 4, False),
     G('trypush', 'h_trypush', 'lockfree_ring_buffer_trypush', 6, True),
     G('trypop', 'h_trypop', 'lockfree_ring_buffer_trypop', 6, True),
+    dict(name='lemmas', tu='lemmas.c', kind='lemmas', harness='', no_native='pure lemma', timeout=600),
 ]
 ASSUMPTIONS = ['A6 the 64-bit indices do not wrap (high < 2^62)', 'values pushed are non-NULL (documented precondition of trypush)',
                'capacity: the refinement proofs run with a symbolic capacity 2^1..2^4 (quick) / 2^1..2^6 (thorough) over a fixed backing store - larger capacities only change `size` and the mask, but are not covered by the proof (CBMC array post-processing blows up on a symbolic-size object)',
